@@ -169,7 +169,7 @@ impl Writer {
     }
 }
 
-fn check(version: Version, method: &Method, host: HostCfg, cl: ClCfg, te: Option<&str>, api: ApiKind, st: &mut Stats) -> Result<(), String> {
+fn check(version: Version, method: &Method, host: HostCfg, cl: ClCfg, te: Option<&str>, api: ApiKind, peek: bool, st: &mut Stats) -> Result<(), String> {
     let v = verdict(version, method, host, cl, te, api);
     let what = format!("{:?} {} host={:?} cl={:?} te={:?} api={:?}", version, method, host, cl, te, api);
     st.evals(1);
@@ -192,7 +192,15 @@ fn check(version: Version, method: &Method, host: HostCfg, cl: ClCfg, te: Option
             if despite {
                 f.send_body_despite_method();
             }
-            Writer::Flow(f.proceed())
+            let mut sr = f.proceed();
+            if peek {
+                // the inspection calls a caller may make before the first write (logging, signing): whatever they answer, the
+                // request is judged by the same table afterwards
+                let _ = sr.headers_map();
+                let _ = (sr.method().clone(), sr.uri().clone(), sr.version());
+                st.class("inspected_before_first_write");
+            }
+            Writer::Flow(sr)
         }
         ApiKind::CallWithBody => match Call::with_body(built.req) {
             Ok(c) => Writer::With(c),
@@ -355,10 +363,11 @@ fn exec_near_valid(t: &mut Tape, st: &mut Stats) -> Result<(), String> {
     } else {
         ApiKind::CallWithoutBody
     };
+    let peek = t.below(3) == 1;
     st.case_digest = t.digest();
-    st.describe(|| json!({"api": format!("{:?}", api), "version": format!("{:?}", version), "method": method.as_str(), "host": format!("{:?}", host), "cl": format!("{:?}", cl), "te": te}));
+    st.describe(|| json!({"api": format!("{:?}", api), "version": format!("{:?}", version), "method": method.as_str(), "host": format!("{:?}", host), "cl": format!("{:?}", cl), "te": te, "inspected_first": peek}));
     st.class(if mutated { "near_valid_mutated" } else { "near_valid_plain" });
-    check(version, &method, host, cl, te, api, st)
+    check(version, &method, host, cl, te, api, peek, st)
 }
 
 /// Stage 'redirected': a valid request that carried a body and framing, redirected by 301/302/303 (method becomes GET) or a
@@ -504,7 +513,8 @@ fn exec_flow(t: &mut Tape, st: &mut Stats) -> Result<(), String> {
     let te = TES[t.below(4)];
     let despite = t.below(2) == 1;
     st.describe(|| json!({"api": "flow", "version": format!("{:?}", version), "method": method.as_str(), "host": format!("{:?}", host), "cl": format!("{:?}", cl), "te": te, "despite": despite}));
-    check(version, &method, host, cl, te, ApiKind::Flow { despite }, st)
+    check(version, &method, host, cl, te, ApiKind::Flow { despite }, false, st)?;
+    check(version, &method, host, cl, te, ApiKind::Flow { despite }, true, st)
 }
 
 fn exec_call(t: &mut Tape, st: &mut Stats) -> Result<(), String> {
@@ -517,7 +527,7 @@ fn exec_call(t: &mut Tape, st: &mut Stats) -> Result<(), String> {
     let te = TES[t.below(4)];
     let api = if t.below(2) == 0 { ApiKind::CallWithoutBody } else { ApiKind::CallWithBody };
     st.describe(|| json!({"api": format!("{:?}", api), "version": format!("{:?}", version), "method": method.as_str(), "host": format!("{:?}", host), "cl": format!("{:?}", cl), "te": te}));
-    check(version, &method, host, cl, te, api, st)
+    check(version, &method, host, cl, te, api, false, st)
 }
 
 pub static DEF: PropDef = PropDef {
@@ -525,7 +535,7 @@ pub static DEF: PropDef = PropDef {
     rule: "exhaustive enumeration 'flow': versions {0.9, 1.0, 1.1, 2, 3} x 9 methods x Host in {none, original, added, original+added, two \
 original, two added, non-textual} x Content-Length in {none, 5, 0 (added), original+added, two different, -1, abc (added), empty, \
 non-UTF-8, > u64::MAX} x Transfer-Encoding in {none, chunked, Chunked, two fields chunked + gzip} x send-body-despite-method {no, yes} = 25200 cells on \
-Flow; 'call': versions x methods x Host {none, one, two, non-textual} x Content-Length classes x TE x {without_body, with_body} = 12960 \
+Flow, each twice: written at once, and written after the inspection calls of the SendRequest state (headers_map(), method(), uri(), version()); 'call': versions x methods x Host {none, one, two, non-textual} x Content-Length classes x TE x {without_body, with_body} = 12960 \
 cells; 'redirected': requests produced by following a redirect (the effective headers are the original ones minus the suppressed \
 names) to the same or another host must be accepted, also with an explicit inherited Host, and what the caller adds to the followed flow \
 (non-numeric Content-Length, Content-Length on a body-less method, a second Host) must be judged by the same table (5760 cells). Oracle = validity table: reject iff version not 1.0/1.1, method undefined for the version, > 1 Host, > 1 Content-Length, \
